@@ -25,11 +25,16 @@ import (
 )
 
 var c02mix = []weighted{
-	{"pub", 34}, {"sleep", 16}, {"crash", 8}, {"crashfs", 6}, {"restart", 12}, {"cut", 10}, {"heal", 8}, {"stall", 5},
+	{"pub", 34}, {"sleep", 16}, {"crash", 8}, {"crashfs", 6}, {"restart", 12}, {"cut", 10}, {"heal", 8}, {"stall", 4}, {"stalll", 3},
 }
 
 // c02Chain builds a failover chain: a follower lags behind while the leadership moves on, catches up
 // across the epoch boundary, and is elected in turn; the deposed leaders come back with uncommitted tails.
+// Variants per round: the leader is isolated (it keeps accepting messages nobody replicates) and dies, dies
+// inside a file operation, or is merely slow for about the failover timeout (it answers requests that were
+// in flight when its followers moved on, and sequences what was queued, before it learns that it is
+// deposed); the epoch after a failover may stay empty; with two replicas (and a third server as metadata
+// voter only) the leadership ping-pongs between the same two logs.
 func c02Chain(r *simrt.Rand, p *hx.Program) {
 	a := func() []int64 { return []int64{int64(r.Intn(12)), int64(r.Intn(12)), int64(r.Intn(90)), int64(r.Intn(12))} }
 	add := func(k string) { p.Ops = append(p.Ops, hx.Op{K: k, A: a()}) }
@@ -38,30 +43,48 @@ func c02Chain(r *simrt.Rand, p *hx.Program) {
 			add("pub")
 		}
 	}
+	sleep := func(i int) { p.Ops = append(p.Ops, hx.Op{K: "sleep", A: []int64{int64(i)}}) }
 	p.Ops = nil
 	pubs(1 + r.Intn(2))
 	add("sleep")
-	rounds := 2 + r.Intn(2)
+	rounds := 2 + r.Intn(3)
 	for i := 0; i < rounds; i++ {
-		if r.Pct(70) {
+		if p.P["rf"] > 2 && r.Pct(70) {
 			add("cutf")
 		}
 		pubs(1 + r.Intn(2))
-		p.Ops = append(p.Ops, hx.Op{K: "sleep", A: []int64{int64(3 + r.Intn(2))}}) // long: the lagging follower leaves the ISR
-		if r.Pct(60) {
-			add("isolate") // the leader keeps accepting messages nobody replicates
+		sleep(3 + r.Intn(2)) // long: the lagging follower leaves the ISR
+		switch v := r.Intn(100); {
+		case v < 25:
+			// a slow leader: stalled for about the time its followers need to give up on it
+			p.Ops = append(p.Ops, hx.Op{K: "stalll", A: []int64{int64(r.Intn(12)), int64(r.Intn(12))}})
+			pubs(1 + r.Intn(2))
+			sleep(3 + r.Intn(2))
+			if r.Pct(50) {
+				pubs(1)
+				sleep(2)
+			}
+			if r.Pct(50) {
+				add("crashl")
+			}
+		default:
+			if r.Pct(60) {
+				add("isolate") // the leader keeps accepting messages nobody replicates
+				pubs(1 + r.Intn(2))
+			}
+			if r.Pct(30) { // the leader dies inside a file operation of one of its next appends
+				p.Ops = append(p.Ops, hx.Op{K: "crashfs", A: []int64{0, 0, 0, int64(r.Intn(8))}})
+				pubs(1 + r.Intn(2))
+				sleep(1)
+			}
+			add("crashl")
+		}
+		sleep(3 + r.Intn(2)) // failover
+		if r.Pct(70) {       // (otherwise the new leader's epoch stays empty)
 			pubs(1 + r.Intn(2))
 		}
-		if r.Pct(30) { // the leader dies inside a file operation of one of its next appends
-			p.Ops = append(p.Ops, hx.Op{K: "crashfs", A: []int64{0, 0, 0, int64(r.Intn(8))}})
-			pubs(1 + r.Intn(2))
-			p.Ops = append(p.Ops, hx.Op{K: "sleep", A: []int64{1}})
-		}
-		add("crashl")
-		p.Ops = append(p.Ops, hx.Op{K: "sleep", A: []int64{int64(3 + r.Intn(2))}}) // failover
-		pubs(1 + r.Intn(2))
 		add("heal")
-		p.Ops = append(p.Ops, hx.Op{K: "sleep", A: []int64{int64(2 + r.Intn(3))}}) // catch up, rejoin the ISR
+		sleep(2 + r.Intn(3)) // catch up, rejoin the ISR
 		if r.Pct(50) {
 			add("restartall")
 			add("sleep")
@@ -75,6 +98,9 @@ func genC02(r *simrt.Rand, tier string, idx int) *hx.Program {
 	p := clusterGen(r, tier, c02mix)
 	if r.Pct(40) {
 		p.P["nodes"], p.P["rf"] = 3, 3
+		if r.Pct(35) {
+			p.P["rf"] = 2 // two replicas, the third server only votes on metadata: leadership ping-pong
+		}
 		p.P["minisr"] = int64(1 + r.Intn(2))
 		p.P["drop"], p.P["delay"] = 0, 0
 		p.P["lag_ms"] = []int64{1000, 2500}[r.Intn(2)]
